@@ -169,6 +169,9 @@ class Exec:
         if type(a) is not type(b):
             if isinstance(a, VBool) and isinstance(b, VInt): return z3.If(a.t, 1, 0) == b.t
             if isinstance(a, VInt) and isinstance(b, VBool): return a.t == z3.If(b.t, 1, 0)
+            if (isinstance(a, VRef) or isinstance(b, VRef)) and isinstance(a, (VRef, VInt, VStr, VBool)) and isinstance(b, (VRef, VInt, VStr, VBool)):
+                # a reference stands for an arbitrary Python object: whether it equals a scalar is not known (e.g. a decoded value that is the text itself)
+                return z3.Function(f'py_eq_{a.t.sort()}_{b.t.sort()}', a.t.sort(), b.t.sort(), B)(a.t, b.t)
             return z3.BoolVal(False)
         if isinstance(a, (VInt, VBool, VStr, VRef)): return a.t == b.t
         if isinstance(a, VNone): return z3.BoolVal(True)
